@@ -14,7 +14,8 @@ EXPLANATION = (
     "to the plain text (for the characters) and to the list of per-character (character, formatting) cells (for the formatting) - "
     "list and str indexing are the oracle, nothing is re-implemented: every index and every slice bound in [-len-2, len+2] and "
     "None; + with every pool value and with plain str on either side; * 0..3; join of every list of up to 3 items drawn from "
-    "{'', 'x', a one-run value, a two-run value} for a plain, an empty and a formatted separator; len()."
+    "{'', 'x', a one-run value, a two-run value, a value without runs} for a plain, an empty and a formatted separator; len(); "
+    "+ and * also with operands whose memoised views were filled beforehand; every result's own .s and len() must agree with its runs."
 )
 NOT_DECIDED = ("values longer than the pool's, slice steps (not supported by the class by design: NotImplementedError), repeat counts "
                "above 3, item lists longer than 3.")
@@ -42,7 +43,8 @@ GROUPS = {
 
 
 def _res(it, r):
-    """('ok', text, cells) | ('raise', name)"""
+    """('ok', text, cells) | ('raise', name) | ('incoherent', why): the result's own views (.s, len, str without escapes) must agree
+    with its runs - a result whose memoised text or length was pre-seeded wrongly is not "what str gives" """
     if r[0] == "opaque":
         raise AnalysisError("outside the evaluated subset: %s" % r[1])
     if r[0] == "raise":
@@ -50,8 +52,30 @@ def _res(it, r):
     v = r[1]
     if isinstance(v, Obj) and v.cls == "FmtStr":
         rs = runs_of(v)
-        return ("ok", "".join(t for t, _ in rs), cells(rs))
+        text = "".join(t for t, _ in rs)
+        try:
+            s_view = it.folder.obj_attr(v, "s")
+            n_view = it.callm(v, "__len__")
+        except Exception as e:
+            if getattr(e, "name", None) is None:
+                raise AnalysisError("views of a result outside the evaluated subset: %s" % e)
+            return ("incoherent", "reading .s of the result raises %s" % e.name, None)
+        if s_view != text or n_view != ("ok", len(text)):
+            return ("incoherent", "the result's runs spell %r but its .s is %r and its len() %s" % (text, s_view, n_view), None)
+        return ("ok", text, cells(rs))
     return ("ok", v, None)
+
+
+def _look(it, v):
+    """fill the memoised views of an operand (text, length, width, terminal string) before it is used"""
+    for name in ("s", "width"):
+        try:
+            it.folder.obj_attr(v, name)
+        except Exception:
+            pass
+    it.callm(v, "__len__")
+    it.callm(v, "__str__")
+    return v
 
 
 def check(src, rep):
@@ -72,13 +96,16 @@ def check(src, rep):
             jobs.append(("slice", pi, (a, b)))
         for qi in range(len(POOL)):
             jobs.append(("add", pi, qi))
+            jobs.append(("add*", pi, qi))
         for s_ in ("", "xy"):
-            jobs.append(("add-str", pi, s_))
-            jobs.append(("radd-str", pi, s_))
+            for star in ("", "*"):          # *: the operands have been looked at (views memoised) before the operation
+                jobs.append(("add-str" + star, pi, s_))
+                jobs.append(("radd-str" + star, pi, s_))
         for k in range(0, 4):
             jobs.append(("mul", pi, k))
+            jobs.append(("mul*", pi, k))
         jobs.append(("len", pi, None))
-    items = ["", "x", 2, 3]          # 2, 3: pool indices
+    items = ["", "x", 2, 3, 0]       # 2, 3, 0: pool indices (0: a FmtStr without runs)
     for sep in ("", ", ", 3):
         for n in range(0, 4):
             for combo in itertools.product(items, repeat=n):
@@ -89,6 +116,8 @@ def check(src, rep):
 
     def one(job):
         kind, a, b = job
+        looked = kind.endswith("*")
+        kind = kind.rstrip("*")
         try:
             if kind == "join":
                 sep_runs = POOL[a][1] if isinstance(a, int) else None
@@ -116,6 +145,9 @@ def check(src, rep):
             else:
                 label, runs = POOL[a]
                 v = mk(it, *runs)
+                if looked:
+                    _look(it, v)
+                    label += " (looked at before)"
                 text, cl = text_cells(runs)
                 if kind == "index":
                     got = _res(it, it.callm(v, "__getitem__", b))
@@ -133,6 +165,8 @@ def check(src, rep):
                     rule = "L3-negative-index-and-bounds-like-str" if any(x is not None and x < 0 for x in b) else "L2-slice-like-str"
                 elif kind == "add":
                     w = mk(it, *POOL[b][1])
+                    if looked:
+                        _look(it, w)
                     t2, c2 = text_cells(POOL[b][1])
                     got = _res(it, it.callm(v, "__add__", w))
                     want = ("ok", text + t2, cl + c2)
@@ -158,6 +192,8 @@ def check(src, rep):
             return ("error", "%s: %s" % (job, e), "")
         if got == want:
             return None
+        if got[0] == "incoherent":
+            return (rule, desc, got[1])
         if got[0] == "ok" and want[0] == "ok" and got[1] == want[1] and got[2] != want[2]:
             why = "text %r is right, the formatting is %s, the operands' characters carry %s" % (got[1], got[2], want[2])
         else:
